@@ -69,10 +69,11 @@ prop('C08', contracts=['c08_catalogue'],
      explanation='PROVED: util.construct builds "<parent>:parent___<name>[___version:<v>]"; util.subset(table, name, parents) returns exactly the entries of the table whose key is the constructed name of some given parent or that name followed by the version separator (loop invariant over the parents, dict/filter/items modelled, string operations uninterpreted in this code-level proof); LEMMA (string theory): among keys of the catalogue format that rule selects precisely the keys whose own name and parent equal the given ones, so a name that merely prefixes another is not selected. BOUNDED ONLY: table/index bijection across reopen, chain resolution, next run id, remove/reset/trace end to end.',
      trusted_base=['str(int) as an injective function into digit strings', 'Version.asstring as a function of the version triple'],
      assumptions=[A3, A7])
-prop('C09', contracts=[],
-     technique='not decided deductively yet: bounded enumeration of synthetic engines against the declared graph (labelled bounded)',
-     explanation='BOUNDED ONLY: Construct.at/svt/tt/vt, ancestry and feedbacks compared with the graph computed from the declarations',
-     assumptions=[A5])
+prop('C09', contracts=['c09_dag'],
+     technique=TECH + 'Construct._ancestry proved to compute the transitive closure of the parent edges (nested loop invariants over a least-fixed-point relation with inversion witness, choice functions for the frontier); graph construction as a whole by bounded enumeration of synthetic engines',
+     explanation='PROVED for every acyclic parent relation and every name table consistent with it: after Construct._ancestry the ancestor set of every listed node holds exactly what it held before plus the names of ALL its proper ancestors (soundness: nothing that is not an ancestor; completeness: every ancestor at any distance), nodes outside the table are untouched, and no lookup in the table can fail. BOUNDED ONLY: one node per algorithm, edges exactly where declared at all three granularities (_sub_*/_parents/trim), feedback never ordering, feedback map; termination of the closure loop.',
+     trusted_base=[ELEMENT, 'ancestor relation `up` as an uninterpreted relation constrained by true facts of the least fixed point (reflexive, step, right step, inversion witness, listed nodes closed under ancestors)'],
+     assumptions=[A3, A5])
 prop('C10', contracts=['c12_submit', 'c10_fsm'],
      technique=TECH + 'transition table from the real state.dot compared edge by edge; every FSM callback (start excepted) proved against the machine semantics; trigger/completion orders by the bounded stand-in',
      explanation='PROVED: (table) the edges, triggers and before/after callbacks read from the real state.dot through the real construct_attributes are exactly the documented ones; the transitioning setter only leaves `active` from `active` and raises MachineError otherwise with nothing changed; save_prior_state rejects a trigger arriving during another transition without side effects; is_pipeline_active() <=> running and at rest; reset() sets all events, clears the priority, ends active; navel_gaze/_navel_gaze, archive/_archive_done, load/done, reload/done each leave exactly one background step outstanding (transitioning != active) or end at rest, fire exactly the documented follow-up trigger, and _archive_done returns to the state archiving was entered from (running -> running at rest; updating -> updating then refresh). BOUNDED ONLY: closure over every trigger sequence with completions in every order (reaches a fixpoint of 312 configurations), FSM.start.',
